@@ -11,6 +11,8 @@ def _post(merged, tier):
         problems.append("the guarded canary (function-local static) was not handled as ordered by its guard")
     if c.get("lock_canary_ok", 0) < 1:
         problems.append("the locked canary (std::mutex) was not explored cleanly")
+    if c.get("copyshare_canary_detected", 0) < 1:
+        problems.append("the copy-sharing canary (use count shared between copies made before the threads start) was not detected")
     if c.get("tracer_alive", 0) < 1:
         problems.append("no shared-capable read was recorded for any libtins workload (instrumentation callbacks dead)")
     if problems:
@@ -22,33 +24,42 @@ SPEC = {
     "level": "model_checking",
     "stages": [
         # stage 1 (footprint independence) + stage 2 (preemption-bounded exploration, canaries) in one binary
-        {"name": "footprint+schedules", "harness": "C18_threads.cpp", "config": "trace", "extra_srcs": ["harness/C18_workloads.cpp", "harness/C18_sweep.cpp"], "gen": True,
+        {"name": "footprint+schedules", "harness": "C18_threads.cpp", "config": "trace", "extra_srcs": ["harness/C18_workloads.cpp", "harness/C18_sweep.cpp", "harness/C18_descend.cpp"], "gen": True,
          "deadline": {"quick": 600, "thorough": 2400}},
         # stage 3: free-running TSan pass (no cooperative scheduler in this binary)
-        {"name": "tsan", "harness": "C18_tsan.cpp", "config": "tsan", "extra_srcs": ["harness/C18_workloads.cpp", "harness/C18_sweep.cpp"], "gen": True,
+        {"name": "tsan", "harness": "C18_tsan.cpp", "config": "tsan", "extra_srcs": ["harness/C18_workloads.cpp", "harness/C18_sweep.cpp", "harness/C18_descend.cpp"], "gen": True,
          "deadline": {"quick": 600, "thorough": 2400}},
     ],
     "post": _post,
     "technique": ("schedule exploration over real threads on the real code: load/store footprint independence (partial-order argument covering "
                   "every interleaving of <= 16 threads) + exhaustive enumeration of all schedules with <= 2 preemptions under a cooperative "
                   "scheduler for dependent sets and canaries + free-running ThreadSanitizer pass"),
-    "rule": ("13 workloads (parse Ethernet/Dot1Q/IP/TCP; parse DNS + all section getters; build+serialize IP/UDP/DNS; RadioTap set/serialize/parse; "
+    "rule": ("13 hand-written workloads (parse Ethernet/Dot1Q/IP/TCP; parse DNS + all section getters; build+serialize IP/UDP/DNS; RadioTap set/serialize/parse; "
              "IPv4 reassembly; StreamFollower on a short connection with explicit timestamps; WEP decrypt; WPA2 handshake + CCMP (thorough: + TKIP) "
              "decrypt; address parse/format/ranges/predicates; CRC-32 + checksums; PDU copy/move/clone; parsing through registered/unknown EtherTypes "
              "and IP protocols (allocator registry); ICMPv6/DHCPv6 typed options), each creating, using and destroying only its own objects and "
-             "returning a digest of everything observed.  STAGE 1: libtins + workloads compiled with -fsanitize-coverage=trace-loads,trace-stores; "
+             "returning a digest of everything observed; + 2 sweeps over the packet grammar (every class: build/serialize; parse + every generated "
+             "getter); + ORIGIN dimension: 6 DESCENDANT workloads = threads A and B of three object sets whose objects the main thread derived "
+             "from one common ancestor per class family (TCP with SACK/timestamp options, IP options, DHCP, DHCPv6, ICMPv6 options, Dot11 beacon "
+             "tagged options, DNS records, RadioTap, RawPDU, PDUCacher, 5-layer Ethernet stack) through every copy path (clone, copy constructor, "
+             "copy assignment into an existing object, Packet copy, a / b composition) BEFORE the threads start, ancestor kept alive / destroyed "
+             "by the main thread before the threads start / destroyed by thread A while B runs; body: copy again (clone, assignment, Packet "
+             "copy/move), getters, option search, serialize, mutate own copy through setters (add/remove option), serialize, destroy; these objects "
+             "pre-exist the threads, so they are shared-capable for the tracer and the footprints of A and B must still be disjoint except for "
+             "read-only data (free() of such a block counts as a write of the whole block).  STAGE 1: libtins + workloads compiled with -fsanitize-coverage=trace-loads,trace-stores; "
              "malloc family, memcpy/memmove/memset/strlen/memcmp/bcmp/sprintf/snprintf, __cxa_guard_* and pthread_mutex_* interposed; every workload "
              "runs alone in a fresh forked process, cold then warm; every access is private (own stack, heap block allocated during the run) or "
              "shared-capable (anything else; recorded per byte with its symbol); for EVERY pair (Wi,Wj) incl. i==j: a byte written by one and accessed "
              "by the other makes the pair dependent (bytes written only inside a function-local-static guard region and accessed only after a check "
              "of that guard are ordered); independent sets get one finely interleaved representative schedule (round robin every 61 accesses, "
-             "k = 2 for all 91 pairs, k = 3,4,8,16 for rotations) whose per-thread digests must equal the digests alone.  STAGE 2: for every dependent "
-             "pair (thorough: + triples) and always for three canaries, real pthreads under a cooperative scheduler (one runnable at a time, semaphore "
+             "k = 2 for all 120 pairs incl. i==j + the 15 pairs of distinct DESCENDANT workloads, k = 3,4,8,16 for rotations, 6 and 16 with all DESCENDANT workloads) whose per-thread digests must equal the digests alone.  STAGE 2: for every dependent "
+             "pair (thorough: + triples) and always for four canaries (static scratch buffer; guarded static; mutex; use count shared between copies made before the threads start), real pthreads under a cooperative scheduler (one runnable at a time, semaphore "
              "hand-off), scheduling points = accesses to the conflict bytes + guard and mutex operations, ALL schedules with <= 2 preemptions (levels "
              "0,1,2), each executed in a fresh forked process; verdicts: race = two threads enabled at conflicting accesses to the same byte, "
              "divergence = thread digest != digest alone, dead-lock, crash/hang under a schedule; the first failing schedule of every signature is "
              "replayed twice and must reproduce identically.  STAGE 3: separate TSan binary, k in {2,3,4,8,16} free-running threads x strides {0,1,5} "
-             "over the workload list, started from a cold process; every TSan report and every digest mismatch is a violation.  "
+             "over the workload list, plus the DESCENDANT workloads one per thread (all six / A+B of a set; objects rebuilt by the main thread before every "
+             "round), started from a cold process; every TSan report and every digest mismatch is a violation.  "
              "states = schedules executed (representative + explored + canaries); transitions = scheduling points executed; "
              "distinct_nontrivial = workloads with >= 1 shared-capable read."),
     "claim": ("If no pair is dependent, every interleaving of any k <= 16 threads running these workloads on private objects is equivalent to the "
